@@ -139,6 +139,71 @@ theorem offset_of_point (nl : α) (s : List α) : ∀ off, off ≤ s.length →
           simp only [offsetOf, hc, if_false]
           omega
 
+/-! ## Lines and text -/
+
+/-- `"\n".join(lines)` -/
+def joinOn (nl : α) : List (List α) → List α
+  | [] => []
+  | [l] => l
+  | l :: rest => l ++ nl :: joinOn nl rest
+
+/-- **Splitting into lines loses nothing**: joining the lines with the newline symbol gives the text back
+    (so every character of the file lies on exactly one line, whatever the line endings) -/
+theorem join_split (nl : α) (s : List α) : joinOn nl (splitOn nl s) = s := by
+  induction s with
+  | nil => rfl
+  | cons c r ih =>
+    by_cases h : c = nl
+    · subst h
+      simp only [splitOn, if_true]
+      cases hs : splitOn c r with
+      | nil => exact absurd hs (splitOn_ne_nil c r)
+      | cons hd tl => rw [hs] at ih; simp [joinOn, ih]
+    · obtain ⟨hd, tl, h1, h2⟩ := splitOn_cons_ne nl c r h
+      rw [h2]
+      rw [h1] at ih
+      cases tl with
+      | nil => simp [joinOn] at ih ⊢; exact ih
+      | cons t ts => simp [joinOn] at ih ⊢; exact ih
+
+/-- no line contains the newline symbol -/
+theorem split_lines_clean (nl : α) (s : List α) : ∀ l ∈ splitOn nl s, nl ∉ l := by
+  induction s with
+  | nil => intro l hl; simp [splitOn] at hl; subst hl; simp
+  | cons c r ih =>
+    intro l hl
+    by_cases h : c = nl
+    · subst h
+      simp only [splitOn, if_true, List.mem_cons] at hl
+      rcases hl with rfl | hl
+      · simp
+      · exact ih l hl
+    · obtain ⟨hd, tl, h1, h2⟩ := splitOn_cons_ne nl c r h
+      rw [h2] at hl
+      rw [h1] at ih
+      simp only [List.mem_cons] at hl
+      rcases hl with rfl | hl
+      · intro hmem
+        simp only [List.mem_cons] at hmem
+        rcases hmem with heq | hmem
+        · exact h heq.symm
+        · exact ih hd (by simp) hmem
+      · exact ih l (by simp [hl])
+
+/-- the number of lines is the number of newline symbols plus one -/
+theorem split_length (nl : α) (s : List α) : (splitOn nl s).length = s.count nl + 1 := by
+  induction s with
+  | nil => rfl
+  | cons c r ih =>
+    by_cases h : c = nl
+    · subst h; simp [splitOn, ih]
+    · obtain ⟨hd, tl, h1, h2⟩ := splitOn_cons_ne nl c r h
+      rw [h2]; rw [h1] at ih
+      have : (c == nl) = false := by simpa using h
+      simp [List.count_cons, this] at ih ⊢
+      exact ih
+
+
 /-! ## DRY line tracking -/
 
 theorem tokenize_valid {σ : Type} (step : σ → List α → σ × Option (List α)) (skip : Nat → Bool) (lines : List (List α)) :
